@@ -28,7 +28,8 @@ CHECKS = {
         "no pipeline stage between kernel and handler reorders or drops (append/popleft/in-place-replace only, FIFO queue "
         "base, single consumer; the delay queue hands out only the element it validated; the event queue skips only a pending "
         "duplicate); and every directory whose changes should reach the stream gets a kernel watch under its current name (the "
-        "reader's bookkeeping contract, instances shared with C02). Histories x timings x kernel behaviour are not decided.",
+        "reader's bookkeeping contract, instances shared with C02); a directory arriving or renamed under a recursive watch carries the complete "
+        "sub-event generator for its descendants; the delay queue's deque is unbounded. Histories x timings x kernel behaviour are not decided.",
         ref="§3/C01",
     ),
     "C02": dict(
@@ -36,7 +37,7 @@ CHECKS = {
         text="Static analysis. Decides the watch-bookkeeping effect contract of Inotify.read_events per abstract native kind: "
         "a new or arriving directory ends the record's path as a key of the watch map (or leaves through the add-watch "
         "failure edge), renamed directories and their watched descendants are re-keyed, IGNORED prunes, and no watch is "
-        "installed under a non-recursive watch; plus the initial recursive installation. That the kernel's watches equal the "
+        "installed under a non-recursive watch; plus the initial recursive installation. The symlink policy of the walks is the caller's flag, handed down unchanged. That the kernel's watches equal the "
         "map is not decided. "
         "Also: no loop of the reader or of the initial installation mutates the container it iterates (a pruned listing must be iterated through a copy).",
         ref="§3/C02",
